@@ -2224,7 +2224,8 @@ Proof.
     destruct (register h c cn b KClient u) as [h1 outs]. cbn [fst snd] in *. split; [exact TR|].
     split; [exact F|]. apply outs_ok_cons_other; [intros; discriminate|exact O].
   - subst b'. destruct (v2_check (h_nb h) b t); [now apply register_spec|now apply Hexp].
-  - subst b'. destruct (throttled h (c_addr cn) ACT_INTERNAL); [now apply Hexp|].
+  - subst b'. destruct (N.eqb tok 4); [now apply Hexp|].
+    destruct (throttled h (c_addr cn) ACT_INTERNAL); [now apply Hexp|].
     destruct (negb (N.eqb tok 0)); [now apply (Hexp (record_failure h (c_addr cn) ACT_INTERNAL))|].
     destruct (h_nb h <=? b); [now apply (Hexp (record_failure h (c_addr cn) ACT_INTERNAL))|].
     now apply register_spec.
